@@ -8,6 +8,7 @@
 -/
 import QExPy.Lemmas.Units
 import QExPy.Lemmas.UnitsDefs
+import QExPy.Model.UnitDefs
 
 namespace QExPy
 open U
@@ -356,5 +357,72 @@ example : DomD [("J".toList, [("N".toList, 1), ("m".toList, 1)]),
   rw [hR]
   simp only [dimT, hm, dimU, List.map, sumRat, dimSym, n1, n2, n3, if_false, if_true]
   ring
+
+/-! ### define / clear histories in which a request is rejected (faults) -/
+
+/-- **C18 (a rejected definition changes nothing).** When `define_unit(name, expr)` raises —
+    the name fails the name test or the expression is not a unit string — the definitions are
+    exactly what they were before the request: in particular a failing *re*-definition of an
+    existing name keeps the previous valid definition. -/
+theorem C18_define_reject_unchanged (defs : Defs) (name expr : List Char)
+    (h : defineReq defs name expr = none) : defineStep defs name expr = defs := by
+  simp [defineStep, h]
+
+/-- the request is rejected exactly when the name or the expression is rejected (it does not
+    depend on the current definitions: re-defining is neither easier nor harder than defining) -/
+theorem C18_define_reject_iff (defs : Defs) (name expr : List Char) :
+    defineReq defs name expr = none ↔ nameOk name = false ∨ parse expr = none := by
+  unfold defineReq
+  cases hn : nameOk name <;> cases hp : parse expr <;> simp
+
+/-- an accepted request is the dictionary assignment `UNIT_DEFINITIONS[name] = parse(expr)` -/
+theorem C18_define_accept (defs : Defs) (name expr : List Char) (u : Units)
+    (hn : nameOk name = true) (hp : parse expr = some u) :
+    defineStep defs name expr = define defs name u := by
+  simp [defineStep, defineReq, hn, hp]
+
+private theorem stepReq_rejected (defs : Defs) (r : DefReq) (h : r.accepted = false) :
+    stepReq defs r = defs := by
+  cases r with
+  | clear => simp [DefReq.accepted] at h
+  | define n e =>
+    have hr : defineReq defs n e = none := by
+      rw [C18_define_reject_iff]
+      simp only [DefReq.accepted, Bool.and_eq_false_iff] at h
+      rcases h with h | h
+      · exact Or.inl h
+      · right
+        cases hp : parse e with
+        | none => rfl
+        | some u => simp [hp] at h
+    exact C18_define_reject_unchanged defs n e hr
+
+/-- **C18 (define/clear sequences with faults).** The definitions after any history of define /
+    clear requests are those after the same history with every rejected request removed. -/
+theorem C18_rejected_requests_invisible (defs : Defs) (rs : List DefReq) :
+    runReqs defs rs = runReqs defs (rs.filter DefReq.accepted) := by
+  induction rs generalizing defs with
+  | nil => rfl
+  | cons r rs ih =>
+    cases hr : r.accepted
+    · have hs := stepReq_rejected defs r hr
+      simp only [runReqs, List.foldl_cons, List.filter_cons, hr, hs] at ih ⊢
+      exact ih defs
+    · simp only [runReqs, List.foldl_cons, List.filter_cons, hr, if_true] at ih ⊢
+      exact ih _
+
+/-- a history that ends in `clear_unit_definitions()` leaves no definition (then `C18_clear`) -/
+theorem C18_clear_last (defs : Defs) (rs : List DefReq) :
+    runReqs defs (rs ++ [DefReq.clear]) = [] := by
+  simp [runReqs, List.foldl_append, stepReq]
+
+/-- non-vacuity: a failing re-definition of `N` (unbalanced bracket) after a valid one -/
+example : runReqs [] [.define "N".toList "kg*m".toList, .define "N".toList "kg*m)".toList]
+    = runReqs [] [.define "N".toList "kg*m".toList] := by
+  have h1 : (DefReq.define "N".toList "kg*m".toList).accepted = true := by decide
+  have h2 : (DefReq.define "N".toList "kg*m)".toList).accepted = false := by decide
+  rw [C18_rejected_requests_invisible]
+  simp only [List.filter_cons, h1, h2, if_true, List.filter_nil]
+  rfl
 
 end QExPy
